@@ -124,6 +124,8 @@ def _child(case: dict[str, Any]) -> dict[str, Any]:
             fresh = s.suite(members, coverage_functions=cov_fns)
             values = [fresh.get_coverage_for(f) for f in cov_fns]
             for ch in fresh.test_case_chromosomes:
+                if ch.test_case.size() == 0:
+                    continue  # a test case without statements has a time budget of 0 s: its "timeout" carries no information
                 r = ch.get_last_execution_result()
                 if r is not None and r.timeout:
                     timeouts[0] += 1
